@@ -1,1 +1,139 @@
-/-! Property theorems for C19 — placeholder until the property's model is built. -/
+import FcpptModel.Spec.C19
+import FcpptProofs.C19.Hist
+/-!
+# C19 — property theorems (sequential part)
+
+For every root level, every history `ops` of `context::set` calls and log-object creations (all
+three constructors), every location and every log object created by the history:
+`context::get`, `object::level`, `object::enabled` and the text `object::log` writes are those the
+specification `levelOf` / `specText` prescribes.  Lemmas live in `FcpptProofs/C19/`.
+The concurrent part is in `FcpptProofs/Props/C19Conc.lean`.
+-/
+namespace Fcppt.C19
+
+/-- the hypotheses: levels are enumerators of `fcppt::log::level` (0 … 5) or empty -/
+def History.Valid (root : Level) (ops : List Op) : Prop := Level.Valid root ∧ ∀ op ∈ ops, op.Valid
+
+/-- **`context::get` = latest set on a prefix wins**, else the root level — for every history and location,
+whether or not a node exists at that location. -/
+theorem get_eq_latest_prefix (root : Level) (ops : List Op) (hv : History.Valid root ops) (loc : Loc) :
+    ctxGet (run root ops).tree loc = levelOf root (setsOf ops) loc := by
+  have h := SInv.run_ok hv.1 ops hv.2
+  unfold ctxGet
+  rw [h.inv.getInt loc]
+  exact fromInt_convertLevel (levelOf_valid hv.1 (setsOf_valid hv.2) loc)
+
+/-- **`object::level`** of every log object the history created: the reference it holds is valid (no fault)
+and the level read through it is `levelOf` of the object's location. -/
+theorem object_level_eq_latest_prefix (root : Level) (ops : List Op) (hv : History.Valid root ops)
+    (o : Obj) (ho : o ∈ (run root ops).objs) :
+    objLevel (run root ops).tree o = .ok (levelOf root (setsOf ops) o.node) := by
+  have h := SInv.run_ok hv.1 ops hv.2
+  have hex := h.objs o ho
+  unfold objLevel nodeLvl
+  cases hl : lvlAt (run root ops).tree o.node with
+  | none => simp [hl] at hex
+  | some l =>
+    rw [h.inv.level _ _ hl]
+    simp only [Except.map]
+    rw [fromInt_convertLevel (levelOf_valid hv.1 (setsOf_valid hv.2) o.node)]
+
+/-- **`object::enabled(l)`** holds exactly when the location's level is set and `l` is at least that level. -/
+theorem enabled_iff (root : Level) (ops : List Op) (hv : History.Valid root ops)
+    (o : Obj) (ho : o ∈ (run root ops).objs) (l : Nat) :
+    ∃ b, objEnabled (run root ops).tree o l = .ok b ∧
+      (b = true ↔ ∃ e, levelOf root (setsOf ops) o.node = some e ∧ e ≤ l) := by
+  unfold objEnabled
+  rw [object_level_eq_latest_prefix root ops hv o ho]
+  refine ⟨_, rfl, ?_⟩
+  unfold enabledAt
+  cases levelOf root (setsOf ops) o.node with
+  | none => simp
+  | some e => simp
+
+/-- **a message is emitted exactly when its level is enabled**, and **its text** is the object's formatter
+applied to the location prefixes (root first, `name: ` each, empty names skipped) applied to the level
+stream's formatter applied to the message.  `i` is the object's index, `f` the formatter it was created with. -/
+theorem emits_iff (root : Level) (ops : List Op) (hv : History.Valid root ops) (streams : Nat → OptFn)
+    (i : Nat) (o : Obj) (f : OptFn) (ho : (run root ops).objs[i]? = some o) (hf : (run root ops).fmts[i]? = some f)
+    (l : Nat) (msg : String) :
+    objLog (run root ops).tree streams o l msg =
+      .ok (if (∃ e, levelOf root (setsOf ops) o.node = some e ∧ e ≤ l)
+           then some (specText f (streams l) o.node msg) else none) := by
+  have h := SInv.run_ok hv.1 ops hv.2
+  have hmem : o ∈ (run root ops).objs := List.mem_of_getElem? ho
+  unfold objLog objEnabled
+  rw [object_level_eq_latest_prefix root ops hv o hmem, h.fmt i o f ho hf, streamLog_eq]
+  simp only [Except.map]
+  congr 1
+  unfold enabledAt
+  cases levelOf root (setsOf ops) o.node with
+  | none => simp
+  | some e => simp
+
+/-- **prefix order**: the text of `specText` spelled out — object formatter outermost, then the location's
+names root first, the level stream's formatter innermost. -/
+theorem prefix_order (f own : OptFn) (p : Loc) (msg : String) :
+    streamLog own (chain f (treeFormatter (toRootNames p))) msg
+      = (f.getD id) (prefixText p ((own.getD id) msg)) :=
+  streamLog_eq own f p msg
+
+/-- locations of created objects, as documented: name / location + name / parent's location + name -/
+theorem object_location_root (s : State) (name : String) (f : OptFn) :
+    ((step s (.objRoot name f)).objs.map Obj.node) = s.objs.map Obj.node ++ [[name]] := by
+  simp [step, State.add, objRoot, objAtNode]
+
+theorem object_location_at (s : State) (loc : Loc) (name : String) (f : OptFn) :
+    ((step s (.objAt loc name f)).objs.map Obj.node) = s.objs.map Obj.node ++ [loc ++ [name]] := by
+  simp [step, State.add, objAt, objAtNode]
+
+theorem object_location_child (s : State) (i : Nat) (p : Obj) (hp : s.objs[i]? = some p) (name : String) (f : OptFn) :
+    ((step s (.objChild i name f)).objs.map Obj.node) = s.objs.map Obj.node ++ [p.node ++ [name]] := by
+  simp [step, hp, State.add, objChild, objAtNode]
+
+/-- the spec itself: appending a `set` -/
+theorem levelOf_snoc (root : Level) (sets : List (Loc × Level)) (L : Loc) (v : Level) (loc : Loc) :
+    levelOf root (sets ++ [(L, v)]) loc = if L.isPrefixOf loc then v else levelOf root sets loc :=
+  levelOf_append root sets L v loc
+
+/-- the spec is "the last set whose location is a prefix, else the root level" -/
+theorem levelOf_spec (root : Level) (sets : List (Loc × Level)) (loc : Loc) :
+    (∃ pre L v post, sets = pre ++ (L, v) :: post ∧ L.isPrefixOf loc = true ∧
+        (∀ s ∈ post, s.1.isPrefixOf loc = false) ∧ levelOf root sets loc = v)
+    ∨ ((∀ s ∈ sets, s.1.isPrefixOf loc = false) ∧ levelOf root sets loc = root) := by
+  induction sets generalizing root with
+  | nil => right; simp [levelOf]
+  | cons s ss ih =>
+    obtain ⟨L, v⟩ := s
+    rw [levelOf_cons]
+    rcases ih (if L.isPrefixOf loc then v else root) with ⟨pre, L', v', post, he, hp, hpost, hl⟩ | ⟨hno, hl⟩
+    · left; exact ⟨(L, v) :: pre, L', v', post, by simp [he], hp, hpost, hl⟩
+    · by_cases h : L.isPrefixOf loc = true
+      · left; exact ⟨[], L, v, ss, by simp, h, hno, by simpa [h] using hl⟩
+      · right
+        refine ⟨?_, by simpa [h] using hl⟩
+        intro s hs
+        rcases List.mem_cons.mp hs with h1 | h1
+        · subst h1; exact Bool.eq_false_iff.mpr h
+        · exact hno s h1
+
+/-! ## Non-vacuity -/
+
+-- a history with sets on nested locations, objects through all three constructors, a disabled level
+def exampleOps : List Op :=
+  [.set ["a", "b"] (some 1), .objAt ["a"] "b" none, .objRoot "c" none, .set ["a"] none,
+   .objChild 0 "d" (some (fun s => "T<" ++ s ++ ">")), .set ["a", "b", "d"] (some 4), .set [] (some 2), .set ["a", "b"] (some 5)]
+
+example : History.Valid (some 3) exampleOps := by
+  refine ⟨by intro v h; cases h; decide, ?_⟩
+  intro op hop
+  simp [exampleOps] at hop
+  rcases hop with rfl | rfl | rfl | rfl | rfl | rfl | rfl | rfl <;> simp [Op.Valid, Level.Valid, levelCount]
+
+example : levelOf (some 3) (setsOf exampleOps) ["a", "b", "d"] = some 5 := by decide
+example : levelOf (some 3) (setsOf exampleOps) ["a", "x"] = some 2 := by decide
+example : levelOf (some 3) (setsOf (exampleOps.take 4)) ["a", "b", "d"] = none := by decide
+example : ((run (some 3) exampleOps).objs.map Obj.node) = [["a", "b"], ["c"], ["a", "b", "d"]] := by decide
+example : specText (some (fun s => "T<" ++ s ++ ">")) (some (defaultLevel 4)) ["a", "", "d"] "m" = "T<a: d: error: m\n>" := by decide
+
+end Fcppt.C19
